@@ -111,9 +111,17 @@ class EvalMixin(object):
         if depth > 8:
             return ("unknown", "fold-depth")
         try:
-            return const(ast.literal_eval(node))
+            v = ast.literal_eval(node)
+            hash(v)
+            if isinstance(v, (set, frozenset, list, dict)):
+                raise TypeError("mutable")
+            return const(v)
         except Exception:
             pass
+        if isinstance(node, (ast.Dict, ast.List, ast.Set)) or (
+                isinstance(node, ast.Call) and dotted(node.func) in (
+                    "set", "dict", "list", "collections.defaultdict", "defaultdict")):
+            return ("modstate", getattr(node, "lineno", 0))
         if isinstance(node, ast.Name):
             if node.id in mod.constants:
                 return self.module_const(mod, node.id, depth + 1)
